@@ -12,7 +12,7 @@ def gen_scenario(rng, sid, big=False):
     L = ["m pool %d %d" % (n, 4096 if small_pipe else 0)]
     skip = 1 if (n > 1 and rng.random() < 0.2) else 0          # thread 0 never started -> EHOSTDOWN / FORCE paths
     L += ["m start %d" % skip, "m waitrun"]
-    mid = [sid * 1000 + 1]
+    mid = [(sid % 40) * 1000 + 1]
     def nid():
         mid[0] += 1; return mid[0] - 1
     dsts = list(range(n)) + [n]                                 # workers + pvt
@@ -51,7 +51,7 @@ def pvt_flood_scenario(rng, sid, nmsg):
     """many senders flood the shared virtual thread: every worker races for the same queue"""
     n = rng.choice([2, 4, 8, 16])
     L = ["m pool %d %d" % (n, 4096 if rng.random() < 0.5 else 0), "m start 0", "m waitrun"]
-    base = sid * 1000 + 1
+    base = (sid % 40) * 1000 + 1
     for k in (1, 2, 3):
         for j in range(nmsg // 3):
             L.append("e%d send %d %d %d" % (k, n, rng.choice([0, 0, 0, 4]), base)); base += 1
